@@ -164,7 +164,9 @@ Ltac finish :=
   solve [ reflexivity | congruence | (exfalso; len_facts; lia) | (exfalso; congruence) | zcong
         | (* truthiness of an int spelt [if n:] on one side, [if n != 0:] on the other: the two tests were
              analysed separately, the impossible combinations are closed here *)
-          (exfalso; unfold truthy in *; len_facts; lia) ].
+          (exfalso; unfold truthy in *; len_facts; lia)
+        | (* second pass: the same with the masks, shifts and octet ranges as facts (Bridge/BridgeTac.v) *)
+          if_x ltac:(x_leaf_false) ].
 
 (** [crush_with callees] ([callees]: a tactic that rewrites with the bridges of the definitions called, where it
     can): every goal must be closed, the first stuck one stops everything; loops are identified as in
@@ -172,7 +174,9 @@ Ltac finish :=
 (* [loop_obs] after [break_match]: it is only needed when [loop_sync] has failed, and looking for loops in every goal of
    the case analysis of a body is not free *)
 Ltac cstep self := first [ loop_sync ltac:(self) | break_match | loop_obs ltac:(leaf) ltac:(self) | loop_destruct | range_split ].
-Ltac crush_with callees :=
-  expose; callees; leaf; facts; first [ finish | (cstep ltac:(crush_with callees); crush_with callees) ].
+Ltac crush_raw callees :=
+  expose; callees; leaf; facts; first [ finish | (cstep ltac:(crush_raw callees); crush_raw callees) ].
+(** the case analysis; if it fails, once more in x-mode (Bridge/BridgeTac.v) *)
+Ltac crush_with callees := first [ crush_raw callees | (xmode_on; crush_raw callees) ].
 Ltac crush := crush_with idtac.
-Ltac crush_show callees := repeat (expose; callees; leaf; facts; first [ finish | cstep ltac:(crush_with callees) ]).
+Ltac crush_show callees := repeat (expose; callees; leaf; facts; first [ finish | cstep ltac:(crush_raw callees) ]).
